@@ -5,6 +5,29 @@ ROOT = os.path.dirname(os.path.dirname(os.path.abspath(__file__)))
 PROPS = [json.loads(l)["id"] for l in open(os.path.join(ROOT, "properties.jsonl"))]
 
 CLAIMED = {
+ "C03": dict(
+   text="Machine-checked Coq theorems over the reader model: lookup by name returns the LAST entry carrying the decoded "
+        "name, an absent name and an out-of-range index are not-found, an undecodable method fails that entry only.  "
+        "The layout theorem (open (render a) = expected a) is not yet proved; faithfulness to foreign layouts is carried "
+        "by the correspondence: 2.4k observations on archives from an independent builder written from APPNOTE (random "
+        "layouts: data descriptors of all four shapes, ZIP64 values forced in every field subset before/after unknown "
+        "extras, local/central disagreement, gaps and permuted local order, made-by DOS/Unix/other, arbitrary attribute "
+        "and DOS-time bits, comments, 0..64 KiB prefix, trailing garbage, duplicate names, end-record window edges, "
+        "unsupported methods), CPython zipfile and Info-ZIP zip; every accessor and every entry's bytes are compared "
+        "with the producer's manifest (oracle) and with the model.",
+   note="Trusted: Coq kernel, extraction+driver, harness, genzip.py/zipfile/Info-ZIP as producers. PARTIAL: the reader theorem over rendered archives is pending; until then the per-archive agreement is differential testing.",
+   technique="Coq proof (lookup/error lemmas) + differential correspondence against independent producers",
+   design="8 (C03)"),
+ "C10": dict(
+   text="Machine-checked Coq theorems over the streaming-reader model: an entry handle is only produced for unencrypted, "
+        "sized, decodable entries (others are an error, never data); after a handle is dropped the stream position is "
+        "the end of its compressed data whatever was consumed.  Agreement with the seekable reader and the visitor "
+        "contract (files in order, then one metadata record per entry, fix D6) are carried by the correspondence: "
+        "streamed sequences under cyclic consumption patterns {0,1,k,all} compared with the model and, entry by entry, "
+        "with the seekable reader on the same bytes; refused archives; damaged and truncated streams.",
+   note="Trusted: Coq kernel, extraction+driver, harness, genzip.py. PARTIAL: the agreement theorem stream_entries (render a) = seekable view is pending (needs the layout theorem of C03).",
+   technique="Coq proof (stream-position and refusal lemmas) + differential correspondence stream vs model vs seekable reader",
+   design="8 (C10)"),
  "C04": dict(
    text="Machine-checked Coq theorems: for an arbitrary inner reader (any decoder or decryptor, even a misbehaving one), "
         "an arbitrary checksum function and every schedule of caller buffer sizes including zero-length reads, an end "
